@@ -207,6 +207,14 @@ def random_forest(rng: random.Random, T: int, max_per_frame: int, id_kind: str =
             u = rng.choice(free) if free and rng.random() < 0.7 else rng.choice(cands)
             edges.append((u, v))
             outdeg[u] += 1
+    if id_kind == "zero" and 0 in times and outdeg.get(0, 0) == 0 and rng.random() < 0.85:
+        # let node 0 be a parent (an ancestor of something) whenever the forest has one
+        ps = [u for u in times if outdeg[u] > 0]
+        if ps:
+            u = rng.choice(ps)
+            sw = {0: u, u: 0}
+            times = {sw.get(n, n): t for n, t in times.items()}
+            edges = [(sw.get(a, a), sw.get(b, b)) for a, b in edges]
     return Forest(times, edges, T)
 
 
